@@ -2205,3 +2205,25 @@ pub fn replay(v: &Value, st: &mut Stats) -> Verdict {
     let c: Case = from_case(v)?;
     prop(&c, st)
 }
+
+// ------------------------------------------------------------------------------------------------
+// the recording protocol context, for other checks that drive a protocol handler (C17 `fetch`)
+
+impl Net {
+    pub fn recording(handle: Handle) -> Arc<Net> {
+        Arc::new(Net { handle, log: Mutex::new(vec![]), connected: Mutex::new(vec![]) })
+    }
+
+    /// reasons of every ban requested so far
+    pub fn ban_reasons(&self) -> Vec<String> {
+        self.log
+            .lock()
+            .unwrap()
+            .iter()
+            .filter_map(|o| match o {
+                Out::Ban { peer, reason } => Some(format!("peer {peer}: {reason}")),
+                _ => None,
+            })
+            .collect()
+    }
+}
